@@ -182,34 +182,29 @@ def main() -> int:
 
     ev = C.Evidence("C06", "model_checking")
     cs = cases(C.tier())
-    # the E-RE lemmas are single-threaded z3 work: run them in a thread beside the (multi-process) sweep
-    import threading
+    # the E-RE lemmas are single-threaded z3 work: run them in a separate *process* beside the (multi-process) sweep
+    # (a thread would be unsafe: the sweep forks workers, and forking a process that has a running thread can deadlock)
+    import json as _json
+    import subprocess as _sp
+    import tempfile as _tf
 
-    lem_result: dict[str, Any] = {}
-
-    def _lemmas() -> None:
-        try:
-            from checks import c06_re
-
-            lem_result["r"] = c06_re.lemmas(ev)
-        except Exception as e:  # noqa: BLE001
-            lem_result["r"] = ([], [f"C06-RE crashed: {type(e).__name__}: {e}"], {"status": "crashed"})
-
-    from engines import symlen as _S
-
-    _S.patch_flowmark()  # import (and patch) every flowmark module in this thread first: no import race
-    import flowmark.linewrapping.block_heuristics  # noqa: F401
-    import flowmark.linewrapping.tag_handling  # noqa: F401
-    from checks import c06_re as _pre  # noqa: F401
-    from oracles import mdshape as _m, tagblocks as _t  # noqa: F401
-
-    th_ = threading.Thread(target=_lemmas)
-    th_.start()
+    lem_out = _tf.NamedTemporaryFile(prefix="c06re_", suffix=".json", delete=False).name
+    lem_proc = _sp.Popen([sys.executable, "-m", "checks.c06_re", lem_out], cwd=str(C.VERIF), env=dict(__import__("os").environ, PYTHONPATH=str(C.VERIF) + __import__("os").pathsep + __import__("os").environ.get("PYTHONPATH", "")))
     findings, harness = D.run_check("C06", MODULE, cs, ev, key_fn, sample_paths=2 if C.tier() == "quick" else 4, max_paths=30000, what_fn=what_fn)
-    th_.join()
-    f2, h2, lem = lem_result["r"]
-    findings += f2
-    harness += h2
+    try:
+        lem_proc.wait(timeout=3600)
+        doc = _json.load(open(lem_out))
+        findings += [C.Finding(**f) for f in doc["findings"]]
+        harness += doc["harness"]
+        lem = doc["info"]
+    except Exception as e:  # noqa: BLE001
+        lem_proc.kill()
+        lem = {"status": f"lemma process failed or timed out: {type(e).__name__}: {e}"}
+    finally:
+        try:
+            __import__("os").unlink(lem_out)
+        except OSError:
+            pass
     ev.add(
         rule="case = (context, construct(s), position, mode) or tag-block skeleton; state = feasible path; obligation: reference word reader accepts the output (constructs intact, separators as in the source), tag lines stay alone",
         functions_encoded=["reformat_api.reformat_text (whole pipeline)", "text_wrapping._HtmlMdWordSplitter / atomic_patterns (through it)", "tag_handling.add_tag_newline_handling, preprocess_tag_block_spacing (through it)"],
